@@ -154,13 +154,19 @@ CHECKS = {
 ADDED = {
     "C01": " A cell-size chop variant is written, the assembled mesh stretched x2 and written again; the second write is judged by the same model with the new count.",
     "C02": " Plus assemblies with a curved shared edge declared by one block only and a chop by cell size along it (count from the mean edge length), all insertion orders and numberings.",
-    "C04": " Plus write - stretch - write histories compared with a fresh mesh (also with the first and last block of a row of three chopped), arcs declared by one block only, uniform multi-section chops.",
+    "C04": " Plus write - stretch - write histories compared with a fresh mesh (also with the first and last block of a row of three chopped), arcs declared by one block only, uniform multi-section chops, a given total expansion is the one written, and one graded tangential chop on every library shape.",
     "C06": " Plus a geometry name declared twice (the later declaration counts) and sphere shapes moved between two writes (built-in geometry compared with the shape moved before its first write).",
     "C07": " Plus every sequence of <= 2 (thorough 3, thinned) project_edge / project_side(edges=True) calls out of 32 with two labels: each edge is written once as 'project' with exactly the union of its labels.",
     "C09": " copy(): the copy moved after copying, and the original moved after copying (copy evaluated before or not), each compared with the geometry before.",
-    "C15": " Maps also at model sizes 1e-4 and 1e3.",
+    "C15": " Maps also at model sizes 1e-4 and 1e3; smoothers that outlive a translation, a moved boundary point, a point fixed by its current position and a deleted block.",
     "C17": " Surface and curve clamps also in models 1e-3 and 1e3 times the unit size with inexact starting guesses.",
-    "C19": " Extruded and lofted (mid sketch) shapes on every sketch: operation [i][j] stands on face [i][j] of the sketch and ends above it.",
+    "C19": " Extruded and lofted (mid sketch) shapes on every sketch: operation [i][j] stands on face [i][j] of the sketch and ends above it. Stacks extruded by a vector or a negative distance; after a deletion the remaining blocks keep their curved edges.",
+    "C03": " Sizes and ratios that fit the edge with a whole number of cells give exactly that number.",
+    "C05": " The side a corner belongs to at a merged interface follows from face connectivity (reference model); pairs declared on the assembled mesh.",
+    "C12": " delete(), add() and merge_patches() on an assembled mesh take effect at once; assemble() may be repeated (also with skip_edges); a few scripted histories of 6-8 events beyond the search depth.",
+    "C13": " Histories in which the user moves an un-clamped vertex after the optimizer was made; radial clamp bounds checked as arc lengths.",
+    "C18": " The round-shape finder is queried again after its vertices were moved and after an earlier entity was deleted.",
+    "C20": " Clamps and links added after a vertex was moved; write() after a refused write(); labels of an edge shared by two operations.",
 }
 
 NOT_APPLICABLE = {}
